@@ -179,6 +179,66 @@ def corpus(seed, n):
     return cases
 
 
+PROBE_TYPES = """#![allow(dead_code)]
+// syntax that syn only parses with its `full` feature, OUTSIDE any educe attribute: what the derive makes of it must not
+// depend on which trait features are enabled (a feature that switches on a feature of a dependency changes it for all)
+#[derive(::educe::Educe)]
+#[educe(%s)]
+pub struct A { pub a: [u8; if true { 3 } else { 2 }] }
+fn main() {}
+"""
+
+
+def cargo_level(chk, tier):
+    """feature sets selected the way a user selects them (Cargo.toml of a dependent crate, resolved by cargo): the verdict
+    on an input whose TYPE needs syn's complete expression grammar is the same for every set"""
+    sets = [("Debug",), ("Debug", "Default"), ("Clone",), ("Clone", "Default", "Hash"), None]
+    if tier == "thorough":
+        sets += [(t,) for t in TRAITS if t not in ("Debug", "Clone", "Copy", "Eq", "DerefMut")] + [tuple(t for t in TRAITS if t != "Default")]
+    root = os.path.join(WORK, "d1", "c18cargo")
+    verdicts = {}
+
+    def one(ix_fs):
+        ix, fs = ix_fs
+        d = os.path.join(root, "p%d" % ix)
+        os.makedirs(os.path.join(d, "src"), exist_ok=True)
+        feat = 'default-features = false, features = [%s]' % ", ".join('"%s"' % f for f in fs) if fs is not None else 'default-features = true'
+        open(os.path.join(d, "Cargo.toml"), "w").write(
+            '[package]\nname = "p%d"\nversion = "0.0.0"\nedition = "2021"\n[dependencies]\neduce = { path = "%s", %s }\n[workspace]\n' % (ix, REPO, feat))
+        tr = "Debug" if fs is None or "Debug" in fs else fs[0]
+        open(os.path.join(d, "src", "main.rs"), "w").write(PROBE_TYPES % tr)
+        lock = os.path.join(REPO, "Cargo.lock")
+        if os.path.exists(lock):
+            shutil.copy(lock, os.path.join(d, "Cargo.lock"))
+        rc, out, err, wall = run(["cargo", "check", "--offline", "--message-format=short"], cwd=d,
+                                 env=base_env({"CARGO_TARGET_DIR": os.path.join(WORK, "tgt", "c18cargo")}), timeout=900)
+        if rc == 0:
+            return fs, "accepted", ""
+        if "unsupported expression" in err or "error: " in err and "could not compile `educe`" not in err and "failed to" not in err.split("error: ")[1][:40]:
+            return fs, "refused", err[-600:]
+        return fs, None, err[-600:]
+    # (serial: the configurations share one target directory)
+    for ix, fs in enumerate(sets):
+        fs, v, err = one((ix, fs))
+        if v is None:
+            chk.inconc("cargo-level-build-failed")
+            log("C18: cargo-level probe for %s: %s" % (fs, err))
+            continue
+        verdicts[fs] = (v, err)
+    kinds = {v for v, _ in verdicts.values()}
+    chk.evaluations += len(verdicts)
+    if len(kinds) > 1:
+        acc = [("default" if k is None else "+".join(k)) for k, (v, _) in verdicts.items() if v == "accepted"]
+        ref = [("default" if k is None else "+".join(k)) for k, (v, _) in verdicts.items() if v == "refused"]
+        chk.violation("feature-coupling-through-a-dependency", "a type whose array length needs syn's complete expression grammar is accepted with "
+                      "features %s and refused with %s: a trait feature changes what the OTHER traits can parse\n%s" % (acc, ref, PROBE_TYPES % "Debug"),
+                      {"probe.rs": PROBE_TYPES % "Debug"})
+    elif verdicts:
+        chk.held("cargo-level", True, len(verdicts))
+        chk.count("cargo-level/%s" % kinds.pop())
+    chk.extra["cargo_level_feature_sets"] = len(verdicts)
+
+
 def main(tier, seed, scale=1.0):
     chk = Check(PROP, tier, seed)
     subs = subsets_for(tier, seed)
@@ -247,6 +307,7 @@ def main(tier, seed, scale=1.0):
         chk.count("build-ok/size=%d" % len(feats))
     chk.extra["exhaustive"] = tier == "thorough"
     chk.extra["subsets_built"] = len(results)
+    cargo_level(chk, tier)
 
     # behaviour axis
     behave_subs = [s for s in built_ok if 0 < len(s) < 12]
